@@ -34,7 +34,7 @@ GROUPS = {
 # measured alone on this image: un_minus 146 s, un_abs 135 s, un_to_int 130 s, rem_g0 114 s, div_g0 160 s, eq_g0 118 s, casts 110-138 s;
 # plus_g0 420 s, pow_g0 484 s, fact 248 s, if_g0 199 s are thorough-tier; mul_g0 does not finish in 900 s
 CELL_QUICK_UNARY = ["minus", "abs", "to_int"]
-CELL_QUICK_BIN = [("rem", 0), ("div", 0), ("lt", 0)]
+CELL_QUICK_BIN = [("rem", 0), ("div", 0), ("lt", 0), ("eq", 0)]
 CELL_QUICK_EXTRA = ["c17_casts_i32_f32"]  # c16_bin_pow_int: 373 s alone, thorough tier
 C17_RULE_CELLS = ("c16_un_minus", "c16_un_abs", "c16_bin_rem", "c16_un_to_int", "c16_un_to_float", "c16_bin_pow", "c16_bin_div", "c16_un_fact", "c16_bin_shl", "c16_bin_shr")
 
